@@ -999,19 +999,22 @@ def sampler_oracle(line, out):
     return None
 
 
-def gen_dsampler_line(rng):
+def gen_dsampler_line(rng, kind=None):
     """one SimpleDirectedControlSampler kept across setBounds / setMinMaxControlDuration / setPropagationStepSize"""
-    kind = rng.choice(["point", "uni", "dint", "car", "dpoint", "dpoint"])
+    kind = kind or rng.choice(["point", "uni", "dint", "car", "dpoint", "dpoint"])
+    steer = kind == "point" and rng.chance(1, 2)      # the SteeredControlSampler (point system: the harness's propagator can steer)
     sy = make_sys(kind, rng.below(7))
     boxes = [([4.0, 0.0], [5.0, 6.5])] if rng.chance(1, 2) else []
     t = ["dsampler"] + sy.toks() + ["boxes", "2", str(len(boxes))] + [B(x) for lo, hi in boxes for x in list(lo) + list(hi)]
-    t += ["k=%d" % rng.choice([1, 2, 3, 5]), "lseed=%d" % rng.below(2000000000), "ops"]
+    t += ["k=%d" % rng.choice([1, 2, 3, 5]), "lseed=%d" % rng.below(2000000000)] + (["steer=1"] if steer else []) + ["ops"]
     clo, chi = list(sy.clo), list(sy.chi)
     for _ in range(rng.range(3, 16)):
         r = rng.below(10)
         if r < 5:
             src = full_state(kind, [rng.uniform(0.5, 9.5), rng.uniform(0.5, 9.5)], rng)
             dst = full_state(kind, [rng.uniform(0.5, 9.5), rng.uniform(0.5, 9.5)], rng)
+            if steer and rng.chance(1, 8):
+                dst = list(src)       # steer() fails
             t += ["T"] + [B(x) for x in src] + [B(x) for x in dst]
         elif r < 7:
             clo, chi, _ = new_bounds(rng, sy, clo, chi, ["narrower", "shifted", "wider"])
@@ -1046,7 +1049,8 @@ def dsampler_oracle(line, out):
         v = [F(x) for x in t[i:i + 4]]
         boxes.append((v[:2], v[2:]))
         i += 4
-    i += 3      # k= lseed= ops
+    steer = t[i + 2] == "steer=1"
+    i += 3 + (1 if t[i + 2].startswith("steer=") else 0)      # k= lseed= [steer=] ops
     clo, chi, dt, mx = list(sy.clo), list(sy.chi), sy.dt, sy.mx
     o = out.split()[1:]
     j = 0
@@ -1068,17 +1072,31 @@ def dsampler_oracle(line, out):
             i += 1
         elif w == "T":
             src = [F(x) for x in t[i:i + nr]]
+            dstq = [F(x) for x in t[i + nr:i + 2 * nr]]
             i += 2 * nr
             if j >= len(o) or o[j] != "T":
                 return "sampleTo result %d missing" % nt
+            if steer and o[j + 1].startswith("none"):
+                if o[j + 1] != "none" or src[:2] != dstq[:2]:
+                    return "steered sampleTo #%d: steer() failed / a failed steer() returned steps" % (nt + 1)
+                j += 2
+                nt += 1
+                continue
             u = [F(o[j + 1]), F(o[j + 2])]
             n = int(o[j + 3])
             got = [F(x) for x in o[j + 4:j + 4 + nr]]
             j += 4 + nr
             nt += 1
-            if not (clo[0] <= u[0] <= chi[0] and clo[1] <= u[1] <= chi[1]):
+            if steer:
+                # SteeredControlSampler: the control is the steering function's; the step count is the steered duration in CURRENT steps
+                dx, dy = dstq[0] - src[0], dstq[1] - src[1]
+                L = max(abs(dx), abs(dy))
+                want = int(math.floor(L / dt + 0.5))
+                if u != [dx / L, dy / L] or n > want:
+                    return "steered sampleTo #%d: control %s / %d steps, the steering function gives %s for %d steps of %r" % (nt, u, n, [dx / L, dy / L], want, dt)
+            elif not (clo[0] <= u[0] <= chi[0] and clo[1] <= u[1] <= chi[1]):
                 return "sampleTo #%d returned the control %s outside the bounds [%s, %s] the control space has at that call" % (nt, u, clo, chi)
-            if n > mx:
+            if n > mx and not steer:
                 return "sampleTo #%d returned %d steps, maxControlDuration is %d at that call" % (nt, n, mx)
             st = list(src)
             cur = Sys(kind, sy.lo, sy.hi, clo, chi, dt, 1, 1)
@@ -1118,6 +1136,25 @@ def shrink_sampler_line(ck, hbin, ln):
         return ln
     cand = " ".join(head + [x for g in gs for x in g])
     return cand if fails(gs) else ln
+
+
+def targeted_sampler_search(ck, hbin, ln, rng, tries=80):
+    """the model and the implementation differ on a `sampler` / `dsampler` line whose draws the oracle accepts: search histories
+    of the same op and control-space kind for one on which a draw violates the configuration in force (then that line, shrunk)"""
+    t = ln.split()
+    for _ in range(tries):
+        if t[0] == "sampler":
+            cand = gen_sampler_line(rng)
+            if cand.split()[1] != t[1]:
+                continue
+        else:
+            cand = gen_dsampler_line(rng, t[1])
+        out, rc, _ = ck.run_bin(hbin, ["control", cand])
+        if out and rc == 0 and (sampler_oracle(cand, out[0]) or dsampler_oracle(cand, out[0])):
+            cand = shrink_sampler_line(ck, hbin, cand)
+            out, rc, _ = ck.run_bin(hbin, ["control", cand])
+            return cand, out[0], sampler_oracle(cand, out[0]) or dsampler_oracle(cand, out[0])
+    return None
 
 
 def gen_nest_lines(rng, nrand):
@@ -1307,6 +1344,17 @@ def judge_plan(ck, hbin, planner, pb, seed, budget, line, out, rc, err, tag, rec
     return sol
 
 
+def phase_cpu(ck, name, _st={}):
+    """log the CPU (user+sys, children = harness / driver processes, plus this process) spent since the previous call"""
+    import resource
+    c = resource.getrusage(resource.RUSAGE_CHILDREN)
+    m = resource.getrusage(resource.RUSAGE_SELF)
+    now = c.ru_utime + c.ru_stime + m.ru_utime + m.ru_stime
+    if "last" in _st:
+        ck.log("phase %-34s cpu %.1fs" % (_st["name"], now - _st["last"]))
+    _st["last"], _st["name"] = now, name
+
+
 def run(ck):
     ck.rule = ("one case = one planner run (planner, system, environment, start/goal, seed, evaluation budget) whose reported "
                "PathControl is re-propagated by the independent Python oracle; non-trivial = a path with at least one "
@@ -1336,6 +1384,7 @@ def run(ck):
     hbin = ck.build_harness("control", ["control.cpp"], link_ompl=True)
     quick = ck.tier == "quick"
 
+    phase_cpu(ck, "pwv/prop/reconf-ops lock-step")
     # ---------------- corpus + (a) propagate / propagateWhileValid lock-step
     scripts = []
     d = os.path.join(core.VERIF, "corpus", "C02")
@@ -1373,7 +1422,7 @@ def run(ck):
                 ck.count("sampler-histories:draws", o.count(" S "))
                 ck.count("sampler-histories:setBounds", ln.count(" B "))
             if ln.startswith("dsampler ") and o != "bad-op":
-                ck.count("directed-sampler-histories:%s" % ln.split()[1])
+                ck.count("directed-sampler-histories:%s%s" % (ln.split()[1], ":steered (SteeredControlSampler)" if " steer=1 " in ln else ""))
                 ck.count("directed-sampler-histories:sampleTo", o.count(" T "))
                 ck.count("directed-sampler-histories:reconfigurations", ln.count(" B ") + ln.count(" M ") + ln.count(" D "))
             if rbad:
@@ -1430,6 +1479,15 @@ def run(ck):
         if dpos is not None and rc == 0 and dpos == judged_at:
             # the model and the implementation differ on exactly the line the spec oracle has just reported with its input
             ck.count("correspondence-disagreement-on-a-line-already-reported-with-input")
+        elif dpos is not None and rc == 0 and dpos < len(lines) and lines[dpos].split()[0] in ("sampler", "dsampler") and \
+                targeted_sampler_search(ck, hbin, lines[dpos], ck.rng.fork("targeted:%s:%d" % (tag, dpos))) is not None:
+            # targeted search aimed by the disagreement found a history whose draw violates the configuration in force
+            cand, co, cbad = targeted_sampler_search(ck, hbin, lines[dpos], ck.rng.fork("targeted:%s:%d" % (tag, dpos)))
+            ck.disagreements += 1
+            ck.report({"engine": "control", "planner": "-", "clause": "sampler-current-bounds", "what": cbad}, script=["control", cand],
+                      expected="a draw depends on the control-space bounds / durations / step size at draw time", observed=[co[:2000], cbad],
+                      engine="control")
+            ck.log("property failure (targeted search after a %s disagreement in %s line %d): %s" % (lines[dpos].split()[0], tag, dpos, cbad))
         elif dpos is not None and rc == 0:
             ck.disagreements += 1
             ck.report({"engine": "control", "what": "model/implementation disagreement (propagation core)"},
@@ -1439,10 +1497,12 @@ def run(ck):
                       obligation="correspondence control: SpaceInformation::propagate/propagateWhileValid vs OmplModel.Control (script %s line %d)" % (tag, dpos))
             ck.log("correspondence disagreement in %s at line %d" % (tag, dpos))
 
+    phase_cpu(ck, "planner runs (oracle)")
     # ---------------- (c) all eight planners
     jobs = []
     r = ck.rng.fork("plan")
-    budgets = [30, 300, 2500, 10000] if quick else [10, 100, 1000, 8000, 30000]
+    # (quick: the deepest budget is 6000 evaluations — 10000 until round 10; the thorough tier goes to 30000)
+    budgets = [30, 300, 2500, 6000] if quick else [10, 100, 1000, 10000, 30000]
     rjobs = []
     for line in plan_corpus:
         planner, pb, seed, budget = parse_plan_line(line)
@@ -1480,6 +1540,7 @@ def run(ck):
             out, rc, err = fu.result()
             judge_plan(ck, hbin, j[0], j[1], j[2], j[3], j[4], out, rc, err, "plan", records)
 
+    phase_cpu(ck, "planner lock-steps (recorded draws)")
     # ---------------- (b) control RRT lock-step on recorded draws
     rr = ck.rng.fork("rrt")
     for kind in ("point", "uni", "dint", "car"):
@@ -1592,6 +1653,7 @@ def run(ck):
                 break
             ck.count({"SST": "sst", "EST": "est", "KPIECE1": "kpiece", "PDST": "pdst"}.get(j[0], "rrt") + "-lockstep:identical-runs")
 
+    phase_cpu(ck, "rrt scripted draws")
     # ---------------- (b2) control RRT on hand-shaped draw scripts: real planner with scripted samplers vs the model
     rs = ck.rng.fork("rrtplay")
     plays2 = [gen_rrtplay(rs) for _ in range(400 if quick else 4000)]
@@ -1618,6 +1680,7 @@ def run(ck):
     else:
         ck.count("rrt-scripted:identical-runs", len(plays2))
 
+    phase_cpu(ck, "path-op line generation")
     # ---------------- Lean spec replayOK + PathControl::check/interpolate on the implementation's paths
     rp = ck.rng.fork("paths")
     lean_lines, expect = [], []
@@ -1641,6 +1704,7 @@ def run(ck):
                     pair_lines.append(" ".join(["pinterp"] + pb.sy.toks() + pb.env_toks() + [str(n)] + Sb + Cb + Db))
                     pair_lines.append(" ".join(["pgeom"] + pb.sy.toks() + pb.env_toks() + [str(n)] + Sb + Cb + Db))
                     ck.count("path-mutation:" + what)
+    phase_cpu(ck, "histories")
     # ---------------- histories on ONE planner object: repeated solve() (continue) and clear()+solve(); every solution path the
     # problem definition holds after each solve goes through the replay oracle (C03 drives control planners through such
     # histories too, but judges interruption/resume/leaks, not the replay)
@@ -1661,7 +1725,7 @@ def run(ck):
                 hjobs.append((planner, pb, line, "clear" in ops))
         # a goal with an extra condition beyond its distance (speed-limited arrival of the double integrator): solve until an
         # exact solution exists, the caller clears only the problem definition's paths, solve again (regression for F160, fixed by fc68fdba5)
-        for rep in range(2 if quick else 6):
+        for rep in range(1 if quick else 6):      # regression for the fixed F160; depth lives in the thorough tier
             pb = std_problem("dint", rh.choice([0, 2, 5]), "empty", "posv")
             pb.thr = 2.0
             line = " ".join(["hist", planner] + pb.toks() + ["k=1", "bias=" + B(0.05), "seed=%d" % rh.below(100000), "ops", "solve", "4000",
@@ -1745,6 +1809,7 @@ def run(ck):
                             ck.log("property failure (history): %s returned EXACT_SOLUTION without an exact path in the goal" % planner)
             ck.case(("hist", line), nsol > 0)
 
+    phase_cpu(ck, "pmisc + replayok + path ops")
     # ---------------- the remaining PathControl methods (length, copy, operator=, print, printAsMatrix, random, randomValid)
     rm = ck.rng.fork("pmisc")
     mjobs = []
@@ -1825,6 +1890,7 @@ def run(ck):
                       found_input=False, engine="control",
                       obligation="correspondence control: PathControl::check/interpolate vs OmplModel.Control.Path (line %s)" % dpos)
             ck.log("PathControl correspondence disagreement at line %s (rc=%s)" % (dpos, rc))
+    phase_cpu(ck, "end")
     return 0
 
 
